@@ -69,7 +69,8 @@ def nonnorm(rnd: random.Random, v: str) -> str:
                          f"_post{ver.post}", f".POST{ver.post}", f".post.{ver.post}"])
     if ver.dev is not None:
         s += rnd.choice([f".dev{ver.dev}", f"dev{ver.dev}", f"-dev{ver.dev}", f"_dev{ver.dev}", f".DEV{ver.dev}"])
-    assert Version(s) == ver, (s, v)
+    if Version(s) != ver:
+        raise AssertionError((s, v))
     return s
 
 
